@@ -54,6 +54,8 @@ def cache_hooks(mem_ok=None):
         if isinstance(recv, OpaqueV) and recv.what == 'virtual_memory' and attr in ('available', 'total'):
             v = smt.fresh('mem_' + attr, smt.Int)     # psutil is fully havocked: any value at any call
             st.pc.append(v >= 0)
+            if attr == 'available':
+                st.ghost['mem_readings'] = st.ghost.get('mem_readings', ()) + (v,)      # ghost: the readings made in this call
             return [(st, IntV(v))]
         return None
     return {'builtin_hook': builtin_hook, 'getattr_hook': getattr_hook}
@@ -196,7 +198,7 @@ class CacheDatasetC(ClassContract):
             Variant('int', params={'item': 'int'},
                     requires=lambda S: z3.And(self_view(S).idx, _inv_instances(S, [S.old.item, _norm(S)])),
                     post=_getitem_post('int'),
-                    hooks=cache_hooks(), props=('C02', 'C09', 'C10')),
+                    hooks=cache_hooks(), props=('C02', 'C09', 'C10', 'C11')),      # C11: DiskCacheDataset inherits __getitem__ / __iter__
         ] + [
             Variant('int:' + k_, params={'item': k_},
                     requires=lambda S: z3.And(self_view(S).idx, _inv_instances(S, [S.old.item, _norm(S)])),
@@ -205,12 +207,12 @@ class CacheDatasetC(ClassContract):
             Variant('str', params={'item': 'key'},
                     requires=lambda S: z3.And(self_view(S).idx, self_view(S).keys,
                                               _inv_instances(S, [AbsView(F(S)['input_dataset'].t).kpos(S.old.item)])),
-                    post=_getitem_post('str'), hooks=cache_hooks(), props=('C03', 'C10'))],
+                    post=_getitem_post('str'), hooks=cache_hooks(), props=('C03', 'C10', 'C11', 'C14'))],
         __iter__=[Variant('values', params={'with_key': 'false'}, generator=True, on_yield=_oy, post=_po,
-                          loops={'src:range(len(self))': _iter_inv}, props=('C01', 'C10', 'C09'), hooks=cache_hooks(),
+                          loops={'src:range(len(self))': _iter_inv}, props=('C01', 'C10', 'C09', 'C11'), hooks=cache_hooks(),
                           requires=lambda S: self_view(S).idx),
                   Variant('items', params={'with_key': 'true'}, generator=True, on_yield=_oyk, post=_pok,
-                          loops={'src:range(len(self))': _iter_inv}, props=('C03', 'C10', 'C09'), hooks=cache_hooks(),
+                          loops={'src:range(len(self))': _iter_inv}, props=('C03', 'C10', 'C09', 'C11'), hooks=cache_hooks(),
                           requires=lambda S: z3.And(self_view(S).idx, self_view(S).keys))],
         __len__=[Variant('len', post=post_len(self_view), props=('C02',))],
         keys=[Variant('keys', post=post_keys(self_view), requires=lambda S: self_view(S).keys, props=('C03',),
@@ -254,6 +256,17 @@ def _check_post(S, o):
     latch1 = me1['_do_cache'].t if isinstance(me1['_do_cache'], BoolV) else None
     out = [('C10:latch-down-means-no-caching', z3.Implies(z3.Not(latch0), z3.Not(o.value.t))),
            ('C10:the-latch-never-goes-up-again', z3.Implies(z3.Not(latch0), z3.Not(latch1)))]
+    # "once the free-memory threshold is crossed no further examples are cached": with a threshold configured, a positive
+    # answer rests on a reading of the free memory made in THIS call that lies above the threshold
+    kmf = me0.get('_keep_mem_free')
+    if isinstance(kmf, (IntV, RealV)):
+        rd = S.st.ghost.get('mem_readings', ())
+        above = z3.Or(*[r > kmf.t for r in rd]) if rd else smt.F
+        out.append(('C10:a-positive-answer-rests-on-a-current-reading-above-the-threshold', z3.Implies(o.value.t, above)))
+        out.append(('C10:a-reading-at-or-below-the-threshold-ends-caching',
+                    z3.Implies(z3.And(latch0, *[r <= kmf.t for r in rd]) if rd else smt.F, z3.Not(o.value.t))))
+    elif isinstance(kmf, NoneV) or kmf is NONE:
+        out.append(('C10:no-threshold-means-always-cache', o.value.t))
     return out
 
 
